@@ -246,3 +246,18 @@ Fixpoint zl_eqb (a b : list Z) : bool :=
 Definition check_case (c : (bool * list file * list nat) * list Z) : bool :=
   let '((icd, G, roots), exp) := c in zl_eqb (observe (parse G icd roots)) exp.
 """
+
+
+def regen_cone(chk, needed) -> bool:
+    """regenerate coq/defs/Gen; a translator that fails closed is a broken obligation when the file it
+    writes is in this property's cone (`needed`), and a note otherwise.  The caller goes on to run
+    the implementation against the spec oracle either way (failing-input search, DESIGN 2.3)."""
+    from . import gen_defs
+    ok = True
+    for f, e in gen_defs.regen():
+        if f in needed:
+            chk.broken_obligation(f"translator failed closed for Gen/{f}", e)
+            ok = False
+        else:
+            chk.note(f"(not in this property's cone) translator failed closed for Gen/{f}: {e[:160]}")
+    return ok
